@@ -30,7 +30,8 @@ def main(tier, seed, replay=None, pid='C05', mode='kill', powerloss=False):
     extra(ck, pid, baselines)
     ck.assumptions += ['a kill between two gated calls is equivalent to a kill at the boundary (the library does nothing observable in between)',
                        'SQLite WAL commits are atomic and durable; directory operations are atomic and survive the fault model of C06']
-    return ck.finish()
+    import tracecheck as _tc
+    return ck.finish(search=_tc.crash_search(ck, pid, powerloss=(pid == 'C06')))
 
 
 def extra(ck, pid, baselines):
